@@ -134,15 +134,54 @@ class TimeDelta:
         return self
 
 
+def next_day(y, mo, d):
+    last = d == days_in_month(y, mo)
+    return (z3.If(z3.And(last, mo == 12), y + 1, y),
+            z3.If(last, z3.If(mo == 12, z3.BitVecVal(1, B32), mo + 1), mo),
+            z3.If(last, z3.BitVecVal(1, B32), d + 1))
+
+
+def prev_day(y, mo, d):
+    first = d == 1
+    pm = z3.If(mo == 1, z3.BitVecVal(12, B32), mo - 1)
+    py = z3.If(mo == 1, y - 1, y)
+    return (z3.If(first, py, y), z3.If(first, pm, mo), z3.If(first, days_in_month(py, pm), d - 1))
+
+
+def shift_civil(civil, delta):
+    """Civil fields of (civil + delta seconds) for |delta| < 86400 (32-bit signed BV), by carry arithmetic."""
+    y, mo, d, h, mi, s = civil
+    cd = conc(delta)
+    if cd == 0:
+        return civil
+    t = h * 3600 + mi * 60 + s + delta
+    under = t < 0
+    over = t >= 86400
+    t2 = z3.If(under, t + 86400, z3.If(over, t - 86400, t))
+    t17 = z3.Extract(16, 0, t2)
+    hh = z3.UDiv(t17, z3.BitVecVal(3600, 17))
+    rem = t17 - hh * 3600
+    mm = z3.UDiv(rem, z3.BitVecVal(60, 17))
+    ss = rem - mm * 60
+    ny, nm, nd = next_day(y, mo, d)
+    py, pm, pd = prev_day(y, mo, d)
+    Y = z3.If(under, py, z3.If(over, ny, y))
+    M = z3.If(under, pm, z3.If(over, nm, mo))
+    D = z3.If(under, pd, z3.If(over, nd, d))
+    return tuple(z3.simplify(x) for x in (Y, M, D, z3.ZeroExt(15, hh), z3.ZeroExt(15, mm), z3.ZeroExt(15, ss)))
+
+
 class DateTime:
-    """An instant. `civil` = (y, mo, d, h, mi, s) 32-bit BVs in UTC when known."""
+    """An instant. `civil` = (y, mo, d, h, mi, s) 32-bit BVs in UTC when known; `local`/`offset` are the
+    civil fields and offset the value was constructed from (DateTime<FixedOffset>)."""
     rust_type = 'DateTime'
 
-    def __init__(self, secs, nanos, civil=None, offset=0):
+    def __init__(self, secs, nanos, civil=None, offset=0, local=None):
         self.secs = bv(secs, B64)
         self.nanos = bv(nanos, B32)
         self.civil = civil
         self.offset = bv(offset, B32)    # for DateTime<FixedOffset>; 0 for Utc
+        self.local = local
 
     def clone(self, m):
         return self
@@ -196,9 +235,8 @@ def from_civil(y, mo, d, h, mi, s, nanos=0, offset=0):
     local = z3.SignExt(32, days) * 86400 + z3.ZeroExt(32, h * 3600 + mi * 60 + s)
     off = bv(offset, B32)
     secs = local - z3.SignExt(32, off)
-    co = conc(off)
-    civil = (y, mo, d, h, mi, s) if co == 0 else None
-    return DateTime(z3.simplify(secs), nanos, civil, offset)
+    civil = shift_civil((y, mo, d, h, mi, s), -off)
+    return DateTime(z3.simplify(secs), nanos, civil, offset, (y, mo, d, h, mi, s))
 
 
 class DelayedFormat:
@@ -362,7 +400,11 @@ def install(m):
             lo, hi = -8334601228800, 8210266876799
             inr = z3.And(secs >= lo, secs <= hi)
             if m.ctx.branch(inr):
-                return some(DateTime(secs, dt.nanos, None, 0))
+                civ = None
+                cds = conc(d.secs)
+                if dt.civil is not None and cds is not None and abs(cds) < 86400:
+                    civ = shift_civil(dt.civil, z3.BitVecVal(cds if sign > 0 else -cds, B32))
+                return some(DateTime(secs, dt.nanos, civ, 0))
             return none()
         return h
     L['checked_add_signed'] = checked_add(1)
